@@ -3,6 +3,7 @@ import Fu.Top2
 import Fu.Seq
 import Fu.Guards
 import Fu.DeltasTop
+import Fu.MergeMode
 
 /-! # C03 — property theorems (statements only; proofs live in the family libraries) -/
 
@@ -70,6 +71,17 @@ theorem update_deltas :
     (ns' : List Node) (em : List (Nat × Nat × Int)) (hup : update true ns t pos ins del = .ok (ns', em)) (v : Nat),
     (List.count v (flat ns') : Int) = List.count v (flat ns) + emSum em v :=
   @Fu.update_deltas
+end
+
+section
+open Fu
+
+/-- merge mode is silent: an update whose stamp carries the merge mark (the replay of a merge commit) reports nothing
+to the updaters, whatever the tree and the request are; the histories are settled by File.Merge (C07) -/
+theorem update_mark_silent :
+    ∀ (fixed : Bool) (ns : List Node) (t pos ins del : Nat) (h : t % (MARK + 1) = MARK)
+    (ns' : List Node) (em : List (Nat × Nat × Int)) (hu : update fixed ns t pos ins del = .ok (ns', em)), em = [] :=
+  @Fu.update_mark_silent
 end
 
 end Props.C03
